@@ -391,6 +391,14 @@ pub fn main(opts: &Opts) {
                 }
             }
         }
+        // every error-tag at every load position and at the commit
+        for &n in &[1usize, 3] {
+            for pos in 4..=(4 + n) {
+                for k in 0..8 {
+                    cases.push((n, Some((pos, Fault::RpcErrorTag(k)))));
+                }
+            }
+        }
         for &n in &ns {
             cases.push((n, None));
             // every fault position × kind (exhaustive)
